@@ -55,10 +55,30 @@ def _safe(f, *a):
     return ("exc:" + type(e).__name__, None)
 
 
+class RefFitError(Exception):
+  """The reference fit raised in the pristine process."""
+
+
+def _ref_fit(payload):
+  """Runs in a grandchild of the pristine server: a brand-new estimator fitted
+  once, under another ambient state and ARPACK seed."""
+  name, params, args, kwargs, amb, eig = payload
+  import warnings
+  warnings.simplefilter("ignore")
+  world.EIGSH.install()
+  world.EIGSH.mode, world.EIGSH.seed = "seeded", eig
+  world.perturb_ambient(amb, 2)
+  ref = cls_of(name)(**params)
+  with world.observed():
+    ref.fit(*args, **kwargs)
+  return pickle.dumps(ref, protocol=4)
+
+
 class Oracle(object):
 
-  def __init__(self, check_reference=True):
+  def __init__(self, check_reference=True, pristine_refs=True):
     self.check_reference = check_reference
+    self.pristine_refs = pristine_refs
     self.refs = 0
     self.pristine_S = {}
 
@@ -104,10 +124,21 @@ class Oracle(object):
       kwargs["weights"] = make_array(ex["weights"]["$arr"])
     if "calibration_params" in ex and h.name in ("ITML", "MMC", "SDML"):
       kwargs["calibration_params"] = dict(ex["calibration_params"])
+    amb = h64("ref", m.plan.get("run_seed", 0), m.op_index) % (2**31)
+    eig = (world.EIGSH.seed * 31 + 7) % (2**31)
+    if self.pristine_refs:
+      # the reference fit happens in a process in which the history under test
+      # never happened (forked from the pristine server): module-level state that
+      # the history may have left behind cannot reach it
+      st, val = world.pristine().call(_ref_fit, (h.name, params, args, kwargs, amb, eig))
+      if st != "ok":
+        raise RefFitError("%s: %s" % tuple(val))
+      m.cov["reference_fits_in_pristine_process"] += 1
+      return pickle.loads(val), Dp
     saved = (world.EIGSH.mode, world.EIGSH.seed)
-    world.perturb_ambient(h64("ref", m.plan.get("run_seed", 0), m.op_index) % (2**31), 2)
+    world.perturb_ambient(amb, 2)
     world.EIGSH.mode = "seeded"
-    world.EIGSH.seed = (saved[1] * 31 + 7) % (2**31)
+    world.EIGSH.seed = eig
     try:
       with world.observed():
         ref.fit(*args, **kwargs)
